@@ -54,30 +54,30 @@ def solve_z3(text, timeout_s, want_model=True):
 
 
 def solve_cvc5(text, timeout_s, want_model=False):
-    import subprocess
-    import tempfile
+    """cvc5 (python wheel 1.4) on the same SMT-LIB2 text: used as a cross-check of z3's verdicts in the thorough tier"""
+    import cvc5
 
     t0 = time.time()
-    src = "(set-logic QF_NRA)\n" + text if "(set-logic" not in text else text
-    with tempfile.NamedTemporaryFile("w", suffix=".smt2", delete=False, dir=os.environ.get("SYMOAS_TMP", None)) as f:
-        f.write(src)
-        path = f.name
+    src = text if "(set-logic" in text else "(set-logic QF_NRA)\n" + text
     try:
-        # python wheel's solver through a tiny driver would need the API; the 1.0.3 binary is enough for a cross-check
-        p = subprocess.run(["cvc5", "--tlimit=%d" % int(timeout_s * 1000), path], capture_output=True, text=True,
-                           timeout=timeout_s + 5)
-        out = (p.stdout + p.stderr).strip()
-    except subprocess.TimeoutExpired:
-        out = "timeout"
-    finally:
-        os.unlink(path)
-    r = "unknown"
-    first = out.splitlines()[0].strip() if out else ""
-    if "(error" in out:
-        r = "error"
-    elif first in ("sat", "unsat", "unknown"):
-        r = first
-    return {"result": r, "time": time.time() - t0, "detail": out[:200]}
+        slv = cvc5.Solver()
+        slv.setOption("tlimit-per", str(int(timeout_s * 1000)))
+        p = cvc5.InputParser(slv)
+        p.setStringInput(cvc5.InputLanguage.SMT_LIB_2_6, src, "q")
+        sm = p.getSymbolManager()
+        res = "unknown"
+        while True:
+            cmd = p.nextCommand()
+            if cmd.isNull():
+                break
+            out = cmd.invoke(slv, sm).strip()
+            if out in ("sat", "unsat", "unknown"):
+                res = out
+            elif out.startswith("(error"):
+                res = "error"
+        return {"result": res, "time": time.time() - t0}
+    except Exception as e:
+        return {"result": "error", "detail": repr(e)[:200], "time": time.time() - t0}
 
 
 def _worker(conn):
